@@ -18,13 +18,16 @@ def build_obs(tier, tables=None):
     obs += [o for o in C04.build_obs(tier) if o.key in ("int-scalar-n4", "int-list-n4", "int-boundary-decneg15+4", "int-boundary-dec15+4", "int-boundary-hex16", "bool-scalar-n5")]
     if tier != "quick":
         obs += [o for o in parse_step_obs(["CHK_C01"], "c01n3", states=range(0, 10), callbacks=False, tier=tier, ntok=3)]
+    # the observation layer: 'every option read back through the getters holds exactly the values': readers vs stored state
+    from props.getcommon import get_obs
+    obs += get_obs("c01", "CHK_C01", tier)
     return obs
 
 
 def run(tier, seed):
     return run_with(
         "C01", tier, seed, build_obs, functions=FUNCS,
-        bounds="one token per obligation from a harness-built valid state: parser state 0-9 x option kind (int, str, bool, float, int list, str list, ptr+callbacks, section single/multi/titled/unique titles, function, deprecated, deprecated+drop, free-form section) x 0-2 existing values/instances x context flags (none, NOCASE, IGNORE_UNKNOWN, COMMENTS) x nesting level 0/1; symbolic: token kind (all 11), token text (2 bytes, 3 thorough), stored values, RESET/MODIFIED bits, num_values, pending annotation, callback verdicts",
+        bounds="(readers: every public getter, by option and by name, on an option of each kind holding 0-3 symbolic values, index symbolic over all 2^32 values - get_step.c) one token per obligation from a harness-built valid state: parser state 0-9 x option kind (int, str, bool, float, int list, str list, ptr+callbacks, section single/multi/titled/unique titles, function, deprecated, deprecated+drop, free-form section) x 0-2 existing values/instances x context flags (none, NOCASE, IGNORE_UNKNOWN, COMMENTS) x nesting level 0/1; symbolic: token kind (all 11), token text (2 bytes, 3 thorough), stored values, RESET/MODIFIED bits, num_values, pending annotation, callback verdicts",
         assumptions=[
             "step lemma only: whole-text equivalence follows by induction over the token sequence and nesting depth (paper argument); tokenisation is C03's claim",
             "the lexer is a stub that returns one symbolic token and serves nested bodies as empty; nested non-empty bodies are the same lemma one level deeper",
